@@ -543,12 +543,17 @@ def check_present_keys_by_membership(ctx):
         fw = repo.func(w)
         if fw.cls is None:
             continue
-        init = fw.cls.methods.get("__init__")
         opt = set()
-        if init is not None:
+        optnum = set()
+        for ctor in ("__init__", "__new__"):
+            init = fw.cls.methods.get(ctor)
+            if init is None:
+                continue
             for a in init.node.args.args + init.node.args.kwonlyargs:
                 if a.annotation is not None and "Optional[" in norm(a.annotation) and any(t in norm(a.annotation) for t in ("List", "Sequence", "ndarray", "Dict", "Tuple", "list", "dict")):
                     opt.add(a.arg)
+                elif a.annotation is not None and "Optional[" in norm(a.annotation) and any(t in norm(a.annotation) for t in ("float", "int", "complex", "Number")):
+                    optnum.add(a.arg)
         for x in body_walk(fw.node):
             if isinstance(x, (ast.If, ast.IfExp)):
                 stack = [x.test]
@@ -558,6 +563,9 @@ def check_present_keys_by_membership(ctx):
                         stack.extend(e.values)
                     elif isinstance(e, ast.UnaryOp) and isinstance(e.op, ast.Not):
                         stack.append(e.operand)
+                    elif isinstance(e, ast.Attribute) and isinstance(e.value, ast.Name) and e.value.id == "self" and e.attr in optnum:
+                        nw += 1
+                        ctx.violation(R5, f"{fw.key}:member-written:{e.attr}", f"{fw.qualname}: `{short(x.test)}` decides by truthiness whether the optional number `{e.attr}` is written: 0 / 0.0 is a value, but it is not written and loads back as None (test `is not None`)", f"{fw.module.relpath}:{e.lineno}")
                     elif isinstance(e, ast.Attribute) and isinstance(e.value, ast.Name) and e.value.id == "self" and e.attr in opt:
                         nw += 1
                         ctx.violation(R5, f"{fw.key}:member-written:{e.attr}", f"{fw.qualname}: `{short(x.test)}` decides by truthiness whether the optional list `{e.attr}` is written: an empty list (zero frames) is not written at all and loads back as None instead of [], so the loaded object is not the saved one (test `is not None`)", f"{fw.module.relpath}:{e.lineno}")
@@ -685,6 +693,11 @@ def run(ctx):
         loader_accepts_path_and_file(ctx, R2, k)
     check_wiring(ctx)
     check_grammar(ctx)
+    from ..lints import check_caches
+
+    # printers, parsers, converters and savers keep no functools cache with an untrustworthy key (a PauliTerm compares with a tolerance
+    # and hashes a rounded coefficient: a memoised printer then prints a *nearby* term's text)
+    check_caches(ctx, "C11-D6 serde-stateless", ['operators._pauli_operators', 'operators._io', 'measurements.expectation_values', 'measurements.parities', 'measurements.measurements', 'utils'])
     check_slots(ctx)
     check_zero_is_a_value(ctx)
     check_present_keys_by_membership(ctx)
